@@ -206,6 +206,8 @@ type Bounds struct {
 	U     int  // size of the key universe (default 5)
 	Big   bool // large-set configuration: restricted sealer menu, shrinking lists
 	GenesisShrink int // large sets: the genesis header already announces a list of this size (0 = same set)
+	ViaUpgrade    bool // the client is created one epoch earlier and brought to the start header by the real UpgradeClient (the announced list must become the pending one)
+	Rotate        bool // the start header announces the set with its first validator replaced by an outsider
 }
 
 func (b Bounds) u() int {
@@ -263,6 +265,9 @@ func New(b Bounds) bfs.System {
 	if b.GenesisShrink > 0 {
 		announced = sortIdx(set[len(set)-b.GenesisShrink:])
 	}
+	if b.Rotate {
+		announced = sortIdx(append(append([]int{}, set[1:]...), b.N)) // validator 0 dropped, outsider N added
+	}
 	gen := Build(Spec{Number: g, Signer: set[0], Coinbase: -1, Diff: 2, List: announced})
 	var vals [][]byte
 	for _, a := range sortedAddrs(set) {
@@ -270,7 +275,18 @@ func New(b Bounds) bfs.System {
 	}
 	cs := bsctypes.NewClientState(*gen, ChainID, b.Epoch, 3, vals, common.HexToAddress("0x20000001").Bytes(), 1_000_000)
 	cons := &bsctypes.ConsensusState{Timestamp: gen.Time, Height: gen.Height, Root: gen.Root}
-	if err := s.h.C.App.XIBCKeeper.ClientKeeper.CreateClient(s.ctx, Client, cs, cons); err != nil {
+	k := s.h.C.App.XIBCKeeper.ClientKeeper
+	if b.ViaUpgrade {
+		// an older client of the same set (one epoch earlier, announcing the unchanged set), then the governance upgrade
+		old := Build(Spec{Number: g - b.Epoch, Signer: set[0], Coinbase: -1, Diff: 2, List: set})
+		ocs := bsctypes.NewClientState(*old, ChainID, b.Epoch, 3, vals, common.HexToAddress("0x20000001").Bytes(), 1_000_000)
+		if err := k.CreateClient(s.ctx, Client, ocs, &bsctypes.ConsensusState{Timestamp: old.Time, Height: old.Height, Root: old.Root}); err != nil {
+			panic(err)
+		}
+		if err := k.UpgradeClient(s.ctx, Client, cs, cons); err != nil {
+			panic(err)
+		}
+	} else if err := k.CreateClient(s.ctx, Client, cs, cons); err != nil {
 		panic(err)
 	}
 	s.parent = gen
